@@ -27,6 +27,20 @@ import frontend as fe
 import refrun
 
 PATH = "/tmp/verif_c23.gdn"
+# texts that trigger the lints with automatic fixes, laid out over several lines (fix positions are built by
+# hand from pieces of other positions)
+LINT_BAIT = [
+    "fun f(a: Bool, b: Bool): Bool {\n  a ||\n    b ||\n    a\n}\n",
+    "fun f(a: Bool, b: Bool): Bool {\n  (a &&\n    b) &&\n      (a &&\n    b)\n}\n",
+    "fun f(): Int {\n  [1,\n   2]\n  \"un\nused\"\n  3\n}\n",
+    "fun f(): Int {\n  let unused =\n    5\n  let y = 1\n  y\n}\n",
+    "fun f(xs: List<Int>): Bool {\n  xs\n    .len() == 0\n}\n",
+    "fun f<T,\n  U>(x: Int): Int {\n  x\n}\n",
+    "fun f(o: Option<Int>): Int {\n  match o {\n    _ => 1,\n    Some(x) =>\n      x,\n  }\n}\n",
+    "fun f(): Int {\n  let x = 1\n  return\n    x\n}\n",
+    "import \"__fs.gdn\" as\n  fs\nfun f(): Int { 1 }\n",
+    "fun f(\u00e9a: Bool): Bool {\n  \u00e9a || // c \u20ac\n    \u00e9a\n}\n",
+]
 MULTI = ['"a\nb"', '"é\n€\n\U0001F600"', '"\n"', '"x\\n\ny"', '"é"', '"€ \U0001F600"']
 
 
@@ -165,6 +179,7 @@ def run(tier, seed):
     if tier == "quick":
         rnd.shuffle(seeds)
         seeds = seeds[:250]
+    seeds += [(f"lint-bait-{i}", s) for i, s in enumerate(LINT_BAIT)]
     base = batch("frontend", [{"id": i, "src": s, "tokens": True, "check": False, "format": False} for i, (_, s) in enumerate(seeds)], timeout_per=2.0)
     texts = []
     for (name, s), r in zip(seeds, base):
